@@ -52,6 +52,54 @@ def _replay(prop, path):
     return rep.finish()
 
 
+def wide_stage(rep, prop, sel, per_cfg):
+    """StoneWireWide: values drawn on the implementation side (wider and deeper than Vals), evaluated by the specification,
+    compared with the real encoder/decoder."""
+    import os
+    import shutil
+    import tempfile
+    import tlc
+    import widegen
+    from wire import norm_abs
+    schemas = {}
+
+    def on(tag, obj):
+        if tag == 'VEC' and obj.get('phase') == 'schema':
+            a = norm_abs(obj)
+            schemas[a['cfg']] = (a['schema'], a['roots'])
+    c = _cfg(0, 0, sel)
+    c['constants'] = dict(c['constants'], NShards=1)
+    c['constraints'] = ['Emit', 'OnlyInit']
+    tlc.run('StoneWireMC', c, workers=1, on_vec=on, timeout=600)
+    tmp = tempfile.mkdtemp(prefix='verif-wide-')
+    try:
+        nfiles = 8                      # one JVM per file; start-up dominates, so few files
+        paths = {}
+        total = 0
+        for s in range(nfiles):
+            mine = {k: v for k, v in schemas.items() if k % nfiles == s}
+            if not mine:
+                continue
+            paths[s] = os.path.join(tmp, 'wide_%d.ndjson' % s)
+            total += widegen.write_trace(paths[s], mine, per_cfg, seed() * 1000 + s)
+
+        def cfg_for(s):
+            c = _cfg(s, 0, sel)
+            c['spec'] = 'WSpec'
+            c['invariants'] = ['DriverValuesValid', 'EncodeSucceeds', 'RoundTrip', 'Idempotent', 'DecodedIsValid', 'StrictRefinesLenient']
+            c['constraints'] = ['WEmit']
+            c['_tlc'] = {'env_extra': {'TRACE_FILE': paths[s]}}
+            return c
+        res = run_shards('StoneWireWide', cfg_for, sorted(paths), 'wirecheck.WireJudge', {'prop': prop}, tlc_kwargs={'timeout': 3000})
+        agg = merge(res)
+        if 'DriverValuesValid' in agg['violated']:
+            raise runner.MachineryFailure('harness/widegen.py produced a value that is not of the declared type')
+        rep.add_tlc('StoneWireWide', agg, {'recorded_values': total, 'per_schema': per_cfg, 'depth': 4})
+        rep.add_judged(agg)
+    finally:
+        shutil.rmtree(tmp, ignore_errors=True)
+
+
 def _run(prop, tier, replay, max_tamper, quick_n, text):
     if replay:
         return _replay(prop, replay)
@@ -63,6 +111,8 @@ def _run(prop, tier, replay, max_tamper, quick_n, text):
     agg = merge(res)
     rep.add_tlc('StoneWireMC', agg, {'schemas': sel, 'of': NCFG, 'MaxTamper': max_tamper, 'Depth': 2})
     rep.add_judged(agg)
+    if prop in ('C04', 'C05'):
+        wide_stage(rep, prop, sel, 25 if tier == 'quick' else 400)
     if prop == 'C06' and tier == 'thorough':
         # two edits per document: random behaviours of the same machine (16 simulation runs, different seeds)
         def sim_cfg(s):
